@@ -1,7 +1,6 @@
 SPECIFICATION Spec
-CONSTANTS MaxTok = 6 MaxDepth = 3
-  Leaves <- LeavesFocus2b
-  RootKinds <- AllRoots
+CONSTANTS MaxDepth = 3
+  Families <- FamQuick
   StoreByCopy = TRUE
   TailKeepsSets = TRUE
 INVARIANT SeenIsExpected
@@ -9,7 +8,6 @@ INVARIANT PrefixOnly
 INVARIANT SiblingIndependent
 INVARIANT RootExpected
 INVARIANT NoLeakToRuntime
-INVARIANT Emitted
 PROPERTY Causal
 PROPERTY RunKeepsStatic
 CHECK_DEADLOCK FALSE
